@@ -12,6 +12,21 @@ CHECKS = {
         note=('Trusted: Coq kernel + vm_compute; hand-written model (tie is differential: ~1400 cases quick); Python int() '
               'modelled for ASCII input; types both named and limited are excluded as the property leaves them unspecified.'),
         technique='Coq proof (induction over the type dict with generalised blanket) + in-Coq correspondence evaluation'),
+    'C07': dict(
+        category='proof',
+        text=('Coq theorems about a Gallina model of DeferredFileWriter (open/_open_tmp_file/_find_free_path/write/_write_file/'
+              '_append_file/close) with finalisation compiled to its list of file-system calls: user files untouched by any '
+              'history of opens/writes/discards; for every prefix of the call list, also with the next call half done, every '
+              'pre-existing file is intact under its own or a backup name (induction over the pending list under a proved '
+              'guard invariant); per-destination exactness incl. first-free backup index; the CLI gate; and a finite theorem '
+              'over the write call-sites regenerated from the source. Tie: histories run on the real writer in a scratch '
+              'directory with fault injection at every call, snapshots compared with the model and evaluated by proved-sound '
+              'checkers inside Coq; real martinize2 runs for the gate.'),
+        design_ref='DESIGN.md section 5, C07',
+        note=('Trusted: Coq kernel + vm_compute; hand-written model tied by differential runs; OS modelled as atomic rename / '
+              'partial copy / partial append; mkstemp freshness; whole-list exactness is checked per output by final_okb, '
+              'proved per destination (finalize_exact_partial); crash safety assumes no destination is a backup name of another.'),
+        technique='Coq proof (guard invariant over the finalisation call list, induction over pending entries) + extracted call-site table + in-Coq correspondence with fault injection'),
 }
 NOT_APPLICABLE = {}
 PENDING_REASON = 'not yet claimed: model and proofs for this property are still being built (see DESIGN.md staging); no check is registered so nothing is asserted'
